@@ -1,5 +1,6 @@
 """C11 - backtests are isolated, repeatable and never mutate their inputs (DESIGN 5/C11)."""
 from . import backtest_rules, tree_rules
+from .common import CORE
 
 
 def run(chk):
@@ -15,3 +16,7 @@ def run(chk):
     tree_rules.set_typed_attribute_order(chk, "C11")
     tree_rules.input_data_never_mutated(chk, "C11")
     tree_rules.no_shared_class_state(chk, "C11")
+    from .algo_equiv import check_equiv
+    from .c19 import STRATEGY_INIT_REF
+    check_equiv(chk, "C19.R1", CORE, "Strategy", "__init__", STRATEGY_INIT_REF, "strategy-construction",
+                "every Strategy instance starts with its own stack and its own empty temp and perm (nothing shared between instances or with the template)", no_inline=("__init__",))
